@@ -66,6 +66,10 @@ def cases(tier, seed):
     for stage in (1, 3):
         for ratio in (None, 1):
             yield "nopsf", dict(stage=stage, ratio=ratio)
+    # ratio = 1 is the identity whatever the catalogue's psf columns say (a catalogue made at another resolution)
+    for stage in (1, 2, 3):
+        for scale in (0.7, 1.25):
+            yield "otherpsf", dict(stage=stage, scale=scale)
     yield "many", dict()
 
 
@@ -371,6 +375,37 @@ def ev_nopsf(case, ctx):
     check_against_truth(out, cat, truth, hdr, case["stage"], ctx, sig, sig)
 
 
+def ev_otherpsf(case, ctx):
+    d = os.environ["VERIF_SCRATCH"]
+    hdr = hdr_()
+    srcs = base_catalogue(hdr)
+    cat = [to_component(s, hdr, k) for k, s in enumerate(srcs)]
+    for c in cat:
+        c.psf_a *= case["scale"]
+        c.psf_b *= case["scale"]
+        c.psf_pa = 40.0
+    truth = {c.uuid: s for c, s in zip(cat, srcs)}
+    f = os.path.join(d, "c05o.fits")
+    scenes.write_image(f, hdr, skygauss.render(hdr, SHAPE, srcs))
+    for regroup in (True, False):
+        sig = "otherpsf:stage=%d,psf_scale=%g,regroup=%s" % (case["stage"], case["scale"], regroup)
+        ctx.count("otherpsf")
+        ctx.nontrivial(sig)
+        try:
+            out = run(f, cat, stage=case["stage"], doregroup=regroup, ratio=1)
+        except Exception as e:
+            ctx.violation("priorized fit raised %r (%s)" % (e, sig), "raise|" + sig)
+            continue
+        ctx.outcome("otherpsf_n=%d" % len(out))
+        if regroup:
+            check_against_truth(out, cat, truth, hdr, case["stage"], ctx, sig, sig)
+        else:
+            # without regrouping the blended pair is fitted as two separate islands: only the isolated sources are predicted
+            iso = [c for c in cat[:2]]
+            check_against_truth([o for o in out if o.uuid in (iso[0].uuid, iso[1].uuid)], iso, {c.uuid: truth[c.uuid] for c in iso}, hdr,
+                                case["stage"], ctx, sig, sig)
+
+
 def ev_many(case, ctx):
     d = os.environ["VERIF_SCRATCH"]
     hdr, img, srcs = scenes.grid_scene(7, (256, 256))
@@ -391,4 +426,4 @@ def ev_many(case, ctx):
 
 
 def evaluate(clause, case, ctx):
-    dict(single=ev_single, edges=ev_edges, permutations=ev_permutations, badrows=ev_badrows, badrows_in_group=ev_badrows_in_group, nopsf=ev_nopsf, many=ev_many)[clause](case, ctx)
+    dict(single=ev_single, edges=ev_edges, permutations=ev_permutations, badrows=ev_badrows, badrows_in_group=ev_badrows_in_group, nopsf=ev_nopsf, many=ev_many, otherpsf=ev_otherpsf)[clause](case, ctx)
